@@ -1058,6 +1058,7 @@ mod verif_loop_opts {
     fn opts(count: Option<u32>, size: Option<u32>) -> BenchOptions<'static> {
         BenchOptions { sample_count: count, sample_size: size, ..Default::default() }
     }
+    //#BEGIN HAS_SAMPLES
     /// "when n = 0 or s = 0 ... it is not called at all": the early-return guard
     #[kani::proof]
     fn has_samples() {
@@ -1067,6 +1068,7 @@ mod verif_loop_opts {
         kani::cover!(count == Some(0) && size == Some(5));
         kani::cover!(count == None && size == Some(0));
     }
+    //#END
     /// min_time()/max_time(): the option converted by <FineDuration as From<Duration>> (whose
     /// exactness for ALL durations is C11's harness), 0 / MAX when unset
     #[kani::proof]
@@ -1203,7 +1205,7 @@ def pick_kani(S, which: str, errs: list):
 
 
 def loop_kani(which: str, S=None, errs=None):
-    sp = _loop_kani(which)
+    sp = _loop_kani(which, S)
     p = pick_kani(S, which, errs if errs is not None else [])
     if p is not None:   # same scratch copy and the same cargo kani run
         for k, v in p.injections.items():
@@ -1213,7 +1215,7 @@ def loop_kani(which: str, S=None, errs=None):
     return [sp]
 
 
-def _loop_kani(which: str) -> KaniSpec:
+def _loop_kani(which: str, S=None) -> KaniSpec:
     hs = [
         KaniHarness("verif_loop_opts::has_samples", "complete", covers="BenchOptions::has_samples"),
         KaniHarness("verif_loop_opts::time_accessors", "complete", covers="BenchOptions::min_time / max_time (assumed in the Verus unit)"),
@@ -1222,7 +1224,12 @@ def _loop_kani(which: str) -> KaniSpec:
     # each property runs only the complements its own statement depends on (the same split as VERIFY)
     want = {"C03": {"has_samples", "initial_mode"}, "C04": {"time_accessors"}, "C19": {"initial_mode"}}[which]
     hs = [h for h in hs if h.name.split("::")[-1] in want]
-    return KaniSpec(injections={OPT: KANI_OPTS, BENCH: KANI_BENCH}, harnesses=hs,
+    # the has_samples harness is compiled only for the property that runs it, and only while the function exists
+    have = S is not None and re.search(r"\bfn\s+has_samples\b", S(OPT).text) is not None if S is not None else True
+    if "has_samples" in want and not have:
+        hs = [h for h in hs if not h.name.endswith("::has_samples")]
+    opts_text = sel(KANI_OPTS, {"HAS_SAMPLES"} if ("has_samples" in want and have) else set())
+    return KaniSpec(injections={OPT: opts_text, BENCH: KANI_BENCH}, harnesses=hs,
                     stubs_note=["std::hash::RandomState::new -> all-zero keys (HashMap seeding needs the getrandom FFI)"])
 
 
